@@ -105,7 +105,15 @@ def _gaf_schema_of(repo, f, rule):
     need = {0, 1, 2, 3, 4, 5, 6, 7, 8, 9, 10, 11}
     if set(schema.values()) & need != need:
         raise AnalysisError(rule, f.where(), f"could not recover all 12 mandatory columns from the parser (got {sorted(schema.items(), key=lambda x: x[1])})")
-    extras = {"tags_attr": param_attr.get("tags", "tags"), "cigar_attr": param_attr.get("cigar", "cigar"), "class": ctor.cls, "fields_var": fields_var}
+    # column variables that are bound again to something that is not their column (R16.9 reports them)
+    rebound = {}
+    used = {a.id for a in argmap.values() if isinstance(a, ast.Name) and a.id in var_col}
+    for name, ds in local_defs(f.node).items():
+        if name in used:
+            extra = [d for d in ds if d is not None and not cols_of(d)]
+            if extra:
+                rebound[name] = [norm(d) for d in extra]
+    extras = {"tags_attr": param_attr.get("tags", "tags"), "cigar_attr": param_attr.get("cigar", "cigar"), "class": ctor.cls, "fields_var": fields_var, "rebound": rebound, "n_col_vars": len(used), "parser_nf": f}
     return schema, extras
 
 
